@@ -452,9 +452,14 @@ void ares_search(ares_channel_t *channel, const char *name, int dnsclass,
     return;
   }
 
+  /* The channel's flags can be rewritten by a configuration reload running in
+   * another thread, read them under the channel lock like everything else */
+  ares_channel_lock(channel);
   rd_flag      = !(channel->flags & ARES_FLAG_NORECURSE) ? ARES_FLAG_RD : 0;
   max_udp_size = (channel->flags & ARES_FLAG_EDNS) ? channel->ednspsz : 0;
-  status       = ares_dns_record_create_query(
+  ares_channel_unlock(channel);
+
+  status = ares_dns_record_create_query(
     &dnsrec, name, (ares_dns_class_t)dnsclass, (ares_dns_rec_type_t)type, 0,
     rd_flag, max_udp_size);
   if (status != ARES_SUCCESS) {
